@@ -312,6 +312,9 @@ func (it *Interp) observe(tag string, v Value) {
 	case TimeV:
 		it.observe(tag, x.NS)
 	case *CoinsV:
+		if x.mat != nil {
+			x = it.toCoins(x.mat)
+		}
 		for _, d := range sortedKeys(x.Amt) {
 			it.observe(tag+"."+d, x.Amt[d])
 		}
